@@ -62,3 +62,19 @@ claim("C18", "algebraic law over configurations: exhaustive singletons + random 
       "For each generated pair all 27 singleton rule sets are evaluated and every other configuration (default, explicit full list, a random subset in random order, the four suggestion-free variants) must equal the multiset union of the singleton results with correct tags.",
       "Every Validate call receives a freshly parsed document, so the law is about rules, not about leftover annotations (that is C10's re-validation clause).",
       "6/C18")
+claim("C11", "stateful property-based testing (rapid state machine with a deep snapshot invariant) plus generated concurrent workloads under the Go race detector",
+      "A rapid state machine issues validate / coerce / resolve-arguments / format actions against one loaded schema and compares a deep snapshot (every field, pointer identity, slice capacities) after each step. Generated job mixes are then precomputed sequentially and issued by 2-32 goroutines started together on the shared schema; each result must equal the sequential one, the snapshot must be unchanged, and the binary (built with -race, halt_on_error) must report no race.",
+      "Schedules are whatever the runtime produced in the run; the race detector's happens-before analysis extends this to unsynchronised accesses that did not overlap in time. A race cannot be shrunk: the in-flight history is reported as the replay.",
+      "6/C11")
+claim("C14", "model-based testing of the coercer: type-directed generation of JSON-like Go values in many representations, nine defect operators, conformance predicate as oracle",
+      "For generated variable types (list depth <= 3, all non-null patterns, scalars, enum, recursive and oneOf input objects, custom scalar) conforming values in 14 Go representations are generated, optionally damaged at a random depth or omitted; VariableValues must return normally, return values xor an error, and every returned value must satisfy an independent conformance predicate.",
+      "Acceptance of conforming input is not claimed by the property and only recorded as a statistic. One deviation (inner list coercion discarded) is recorded with a relaxation restricted to nested positions.",
+      "6/C14")
+claim("C15", "differential testing of argument resolution against a reference resolver on generated valid triples",
+      "For generated valid (schema, document, variables) triples, with variables first coerced as gqlgen does, ArgumentMap is called on every field and directive reachable from every operation and compared with an independent implementation of literal > supplied variable > argument default > absent.",
+      "Unsupplied variables nested inside literals are outside the domain (the statement does not determine their value). One recorded panic (numbers beyond int64/float64 in custom-scalar positions) is matched by its exact signature.",
+      "6/C15")
+claim("C20", "generated-input search with a well-formedness oracle over every error-producing entry point, coverage measured in distinct message templates",
+      "Error-biased generators drive the lexer, all parser entry points, LoadSchema, Validate/LoadQuery and VariableValues with named and unnamed sources; every error value is checked for message, rule, location, file, JSON shape and path round trip. Paths are enumerated exhaustively to length 3 and sampled to length 6.",
+      "Coverage is reported as distinct message templates reached per entry point; a template list that shrinks between runs indicates a generator regression, not a violation.",
+      "6/C20")
